@@ -18,10 +18,11 @@
    deadlock checking on: the walk can only stop at end().
 
    ClampBug = TRUE drops the clamping of an inverted range (vacuity guard).
-   SizeBug  = TRUE computes size() from the unclamped end. *)
+   SizeBug  = TRUE computes size() from the unclamped end.
+   DefBug   = TRUE swaps the reference sequence for the closed range. *)
 EXTENDS Ranges
 
-CONSTANTS T, Dom, ClampBug, SizeBug
+CONSTANTS T, Dom, ClampBug, SizeBug, DefBug
 
 VARIABLES b, e, cur, k
 vars == <<b, e, cur, k>>
@@ -42,17 +43,22 @@ Step == /\ ~AtEndIt
 Done == AtEndIt /\ UNCHANGED vars
 Spec == Init /\ [][Step \/ Done]_vars
 
-R == IntRange(b, e)
+R == IF DefBug THEN IntRange(b, e + 1) ELSE IntRange(b, e)   \* DefBug: a closed range (guard of RangeLaw)
 InType == cur \in TypeVals(T) /\ (~AtEndIt => cur < TypeMax(T))   \* a ++ at the maximum would overflow
-Prefix == /\ k <= Len(R)
+(* Len(R) = Count(b,e) is part of RangeLaw (checked in the initial state of every behaviour) *)
+Prefix == /\ k <= Count(b, e)
           /\ cur = b + k
-          /\ (~AtEndIt => k < Len(R) /\ R[k + 1] = cur)
-AtEnd == AtEndIt => k = Len(R)
+          /\ (~AtEndIt => k < Count(b, e) /\ R[k + 1] = cur)
+AtEnd == AtEndIt => k = Count(b, e)
 SizeLaw == SizeOk(T, b, e, SizeOf(b, e))
-RangeLaw == /\ SeqSet(R) = {x \in TypeVals(T) : b <= x /\ x < e}
+RangeLaw == k = 0 =>
+            /\ SeqSet(R) = {x \in TypeVals(T) : b <= x /\ x < e}
             /\ \A i \in 1..(Len(R) - 1) : R[i + 1] = R[i] + 1
             /\ Len(R) = Count(b, e)
             /\ (e <= b => R = <<>>)
+
+(* quick tier: every (b, e) of the type, laws and the first step only *)
+Shallow == k = 0
 
 (* input domains of the configurations *)
 DomFull == TypeVals(T)
